@@ -19,7 +19,8 @@ META = {
             "random outcomes) one explorer answer; non-trivial = the call changed the stabilizer group or the size; distinct = distinct (state, call)",
     "bounds": {"quick": "complete reachable 1- and 2-qubit spaces from |0>,|00> (fixpoint); every size-changing call from every state, results on 3 qubits "
                         "checked and every removal applied once; n=50 base histories with every single inserted operation on 5 probe qubits",
-               "thorough": "same + n=200, pairs of inserted operations on boundary qubits, Stabilizer wrapper on all 2-qubit states"},
+               "thorough": "same with four 3-qubit excursions closed per state, all tensor partners, n=50 and n=100 histories; the deepest variant (VERIF_C07_DEEP=1: full menu from every state, "
+                           "every excursion, gate words of length 4, n=200 with three layers) needs more than 12 CPU-hours and was not completed"},
     "assumptions": ["states with equal (n, table, phase, iphase) have equal futures: these four fields are the whole object state",
                     "measure_x/measure_y: only the returned outcome and tableau validity are demanded (post-state basis is not documented)"],
 }
@@ -326,7 +327,8 @@ def transitions_from(acc, blob, lean=False):
 
 def expand(blob, tier, acc):
     n = blob[0]
-    lean = tier == "quick"
+    lean = tier == "quick" or not deep()
+    cap3 = 2 if tier == "quick" else 4
     succs = transitions_from(acc, blob, lean)
     res = []
     for s in succs:
@@ -338,8 +340,8 @@ def expand(blob, tier, acc):
             if key3 in _SEEN3:
                 continue
             _SEEN3.add(key3)
-            if lean and _x3_count(blob) >= 2:
-                continue  # quick: close two of the 3-qubit excursions per state (all of them in thorough)
+            if lean and _x3_count(blob) >= cap3:
+                continue  # close two (quick) / four (thorough) of the 3-qubit excursions per state; all of them in the deep variant
             for op in menu(3):
                 if lean and op[0] == "ptrace" and (len(op[1]) != 1 or op[2] != 1):
                     continue
@@ -349,7 +351,7 @@ def expand(blob, tier, acc):
                     if t is not None and t[0] <= 2:
                         res.append((t, t))
     # tensor products (two real objects): this state with each 1-qubit seed, both orders
-    for other in (_tensor_partners()[:3] if lean else _tensor_partners()):
+    for other in (_tensor_partners()[:3] if tier == "quick" else _tensor_partners()):
         check_tensor(acc, blob, other)
         check_tensor(acc, other, blob)
     return res
@@ -639,19 +641,28 @@ def three_qubit_shard(acc, first, L):
     return len(seen)
 
 
+def deep():
+    """VERIF_C07_DEEP=1 selects the deepest variant of the thorough tier (full menu from every state, every 3-qubit excursion closed, gate words of
+    length 4, n=200 with three layers); it needs more than 12 CPU-hours and is not what `./check C07 thorough` runs by default."""
+    import os
+    return os.environ.get("VERIF_C07_DEEP") == "1"
+
+
 def shards(tier):
     """large-n part and wrapper part (the BFS part is driven by run())."""
     out = []
     for g in range(12):
-        out.append({"three": True, "first": g, "L": 3 if tier == "quick" else 4})
+        out.append({"three": True, "first": g, "L": 4 if (tier != "quick" and deep()) else 3})
     for a in range(0, 60, 6):
         out.append({"wrappers": True, "lo": a, "hi": a + 6})
-    for n in ([50] if tier == "quick" else [50, 200]):
+    sizes = [50] if tier == "quick" else ([50, 200] if deep() else [50, 100])
+    layers = 3 if (tier != "quick" and deep()) else 2
+    for n in sizes:
         for name in ("ghz", "cluster", "brick"):
-            L = len(base_histories(n, 2 if tier == "quick" else 3)[name])
+            L = len(base_histories(n, layers)[name])
             step = max(1, L // (8 if n == 50 else 24))
             for lo in range(0, L + 1, step):
-                out.append({"n": n, "base": name, "lo": lo, "hi": min(L + 1, lo + step), "dev": 1, "layers": 2 if tier == "quick" else 3})
+                out.append({"n": n, "base": name, "lo": lo, "hi": min(L + 1, lo + step), "dev": 1, "layers": layers})
     return out
 
 
